@@ -1,7 +1,8 @@
 (* Extract.v — extraction of the executable model to OCaml. ExtrOcamlBasic only. *)
 Require Extraction.
 Require Import ExtrOcamlBasic.
-From RS Require Import Base Channel Pipeline Selector Builder Script.
+From RS Require Import Base Channel Pipeline Selector Builder Script World Instance.
 Extraction Blacklist List String Int.
 Extraction "model.ml" seq_run sel_stream dedup apply_bcalls build builder_new send_phase send_seq
-  recv try_recv chan_new do2_dropped process_action lastn.
+  recv try_recv chan_new process_action lastn
+  step enabled run label_of_thread scenario_world script_config thread_finished get_thread.
